@@ -41,7 +41,8 @@ def build_index(j: dict, backend: str, path: str | None):
         if e["m"] == "-":
             continue
         key = tuple(k.split("/"))
-        meta = {"none": None, "d": Meta(isdir=True), "f1": Meta(size=1), "f2": Meta(size=2, isexec=True)}[e["m"]]
+        meta = {"none": None, "d": Meta(isdir=True), "f1": Meta(size=1), "f2": Meta(size=2, isexec=True),
+                "f3": Meta(size=1, etag="E1"), "f4": Meta(size=9, etag="E1")}[e["m"]]
         if e["h"] == "none":
             hi = None
         elif e["h"] == "D":
@@ -75,6 +76,16 @@ def run_call(o, n, o_none, n_none, opts, backend, tmp):
 
     kw = dict(with_unchanged=opts["unchanged"], hash_only=opts["hash_only"], meta_only=opts["meta_only"],
               shallow=opts["shallow"])
+    if opts.get("key", "none") == "cks":
+        # the key the library's own push passes: the checksum field of the remote file system (here: etag)
+        from functools import partial
+        from types import SimpleNamespace
+
+        from dvc_data.index.push import _meta_checksum
+
+        kw["meta_cmp_key"] = partial(_meta_checksum, SimpleNamespace(PARAM_CHECKSUM="etag"))
+    elif opts.get("key") == "mode":
+        kw["meta_cmp_key"] = lambda meta: (meta.isdir, meta.isexec) if meta is not None else None
 
     def call(a, b, renames):
         try:
@@ -106,10 +117,14 @@ def _work(args):
 
 def opt_sets():
     out = []
-    for u, mode, sh, ren in itertools.product([False, True], ["entry", "hash", "meta"], [False, True], [False, True]):
+    for u, mode, sh, ren, key in itertools.product([False, True], ["entry", "hash", "meta"], [False, True], [False, True],
+                                                   ["none", "mode", "cks"]):
         if ren and mode == "meta":
             continue  # diff() asserts: rename detection is not combined with meta_only
-        out.append({"unchanged": u, "hash_only": mode == "hash", "meta_only": mode == "meta", "shallow": sh, "renames": ren})
+        if key != "none" and mode == "hash":
+            continue  # the key function is not consulted when only hashes are compared
+        out.append({"unchanged": u, "hash_only": mode == "hash", "meta_only": mode == "meta", "shallow": sh, "renames": ren,
+                    "key": key})
     return out
 
 
@@ -154,7 +169,7 @@ def check(run: core.Run, replay=None):
             o_none = t % 31 == 0
             n_none = t % 37 == 0
             backend = "sqlite" if t % 5 == 0 else "memory"
-            sub = opts if t % 4 == 0 else rng.sample(opts, 3)
+            sub = rng.sample(opts, 20) if t % 4 == 0 else rng.sample(opts, 3)
             jobs.append((empty if o_none else o, empty if n_none else n, o_none, n_none, sub, backend))
     nproc = 16
     chunks = [(jobs[k::nproc * 4], run.seed) for k in range(nproc * 4)]
